@@ -597,7 +597,8 @@ private:
                                 ++stream_pos;
 
                                 *dst_it++ = this->_palette[ packed_indices >> 4 ];
-                                if( ++i == second )
+                                // count is the run length clamped to the row: stop there, not at the declared length
+                                if( ++i == count )
                                     break;
 
                                 *dst_it++ = this->_palette[ packed_indices & 0x0f ];
